@@ -13,8 +13,8 @@ import (
 
 type canonCtx struct {
 	info  *types.Info
-	kindT *types.Named                             // the node-kind type: its constants print as K<value>
-	subst func(v *types.Var) (ast.Expr, bool)      // live alias of a variable, if any
+	kindT *types.Named                        // the node-kind type: its constants print as K<value>
+	subst func(v *types.Var) (ast.Expr, bool) // live alias of a variable, if any
 	depth int
 }
 
